@@ -369,6 +369,28 @@ func checkRekeyOrder(c *Ctx) {
 		c.anchorMissing("ORDER-rekey", "deleteVersion / saveNodeFromPruning / deleteFromPruning")
 	} else {
 		saves := callsIn(dv, predStatic(snp))
+		// the re-keying sequence may live in a helper method of nodeDB (one level): the call of the helper stands for
+		// the save, and inside the helper no deletion may come before the save
+		for _, in := range callsIn(dv, func(cc *ssa.CallCommon) bool {
+			g := staticCallee(cc)
+			return g != nil && g != snp && l.inModule(g) && len(g.Blocks) > 0 && len(callsIn(g, predStatic(snp))) > 0
+		}) {
+			saves = append(saves, in)
+			g := staticCallee(callCommon(in))
+			for _, s2 := range callsIn(g, predStatic(snp)) {
+				var early ssa.Instruction
+				for _, d2 := range callsIn(g, predStatic(dfp)) {
+					if instrDominates(d2, s2) || reachesInstr(d2, s2) {
+						early = d2
+					}
+				}
+				pos := l.ipos(s2)
+				if early != nil {
+					pos = l.ipos(early)
+				}
+				c.decide("ORDER-rekey", l.fname(g)+" re-key helper: save new before delete old", pos, early == nil, "no deletion precedes the save inside the helper", "inside the re-key helper the old key is deleted before the re-keyed copy is queued")
+			}
+		}
 		if len(saves) == 0 {
 			c.anchorMissing("ORDER-rekey", "no saveNodeFromPruning in deleteVersion")
 		}
